@@ -151,7 +151,7 @@ def drv_ws_grammar(c, ctx, col):
     k = ctx["kmin"] + c.upto(ctx["k"] - ctx["kmin"])
     tree = gen_tree(c, k, ctx["leaves"])
     tokens = render(tree)
-    shape = c.choose(3)
+    shape = c.choose(ctx.get("shapes", 3))
     if shape == 1:
         tokens = ["y", "~"] + tokens
     elif shape == 2:
@@ -567,6 +567,8 @@ def drv_spans(c, ctx, col):
                 col.violation(key, info, sig="span-does-not-delimit-text")
                 break
     # the highlighted context of a parsing error is the source with two markers inserted
+    if len(s) > ctx.get("context_upto", 99):
+        return
     try:
         get_terms(s)
     except FormulaParsingError as e:
@@ -621,8 +623,8 @@ def subchecks(tier, seed):
             bounds={"expressions": len(PY_EXPRS), "all_subsets_of_boundaries_up_to": 8 if quick else 10,
                     "beyond": "all single and pairwise insertions, none, all"}),
         Sub("spans24", drv_spans, {"alphabet": CHARS24, "L": 4}, shard_depth=3, bounds={"alphabet": "".join(CHARS24), "max_length": 4}),
-        Sub("spans14", drv_spans, {"alphabet": CHARS14, "L": 5 if quick else 6}, shard_depth=3 if quick else 4,
-            bounds={"alphabet": "".join(CHARS14), "max_length": 5 if quick else 6}),
+        Sub("spans14", drv_spans, {"alphabet": CHARS14, "L": 5 if quick else 6, "context_upto": 5}, shard_depth=3 if quick else 4,
+            bounds={"alphabet": "".join(CHARS14), "max_length": 5 if quick else 6, "error_context_checked_up_to_length": 5}),
     ]
     if quick:
         first = SIGMA_Q[seed % len(SIGMA_Q)]
@@ -632,8 +634,8 @@ def subchecks(tier, seed):
     else:
         subs.append(Sub("ws-tokens-5", drv_ws_tokens, {"sigma": SIGMA_Q, "L": 5, "Lmin": 5, "both_icpt_upto": 0}, shard_depth=3,
                         bounds={"alphabet": SIGMA_Q, "tokens": 5}))
-        subs.append(Sub("ws-grammar-3", drv_ws_grammar, {"k": 3, "kmin": 3, "leaves": ["a"], "lead_trail": False, "ws": WS[:2]}, shard_depth=4,
-                        bounds={"binary_operators": 3, "leaves": ["a"], "max_tokens": 9, "white_space": ["", " "]}))
+        subs.append(Sub("ws-grammar-3", drv_ws_grammar, {"k": 3, "kmin": 3, "leaves": ["a"], "lead_trail": False, "ws": WS[:2], "shapes": 1},
+                        shard_depth=4, bounds={"binary_operators": 3, "leaves": ["a"], "max_tokens": 9, "white_space": ["", " "], "shapes": ["T"]}))
     return subs
 
 
